@@ -13,11 +13,13 @@ mod c02_conn;
 mod c03;
 mod c04;
 mod c06;
+mod c07;
 mod scen;
 mod c10;
 mod c11;
 mod c12;
 mod c13;
+mod c14;
 mod c15;
 mod c16;
 mod c18;
@@ -52,6 +54,7 @@ fn main() {
         .and_then(|s| s.parse().ok())
         .unwrap_or(0u64);
     common::install_panic_hook();
+    spawn_rss_watchdog();
     let args = Args { tier, seed };
     let code = match argv[1].as_str() {
         "C01" => c01::run(&args),
@@ -59,10 +62,12 @@ fn main() {
         "C03" => c03::run(&args),
         "C04" => c04::run(&args),
         "C06" => c06::run(&args),
+        "C07" => c07::run(&args),
         "C10" => c10::run(&args),
         "C11" => c11::run(&args),
         "C12" => c12::run(&args),
         "C13" => c13::run(&args),
+        "C14" => c14::run(&args),
         "C15" => c15::run(&args),
         "C16" => c16::run(&args),
         "C18" => c18::run(&args),
@@ -72,6 +77,22 @@ fn main() {
         }
     };
     std::process::exit(code);
+}
+
+/// Engine-level memory cap: a run that outgrows it is a machinery failure (exit 2), never a verdict.
+fn spawn_rss_watchdog() {
+    let cap_gb: u64 = std::env::var("VERIF_MAX_RSS_GB").ok().and_then(|s| s.parse().ok()).unwrap_or(28);
+    std::thread::spawn(move || loop {
+        std::thread::sleep(std::time::Duration::from_millis(250));
+        if let Ok(s) = std::fs::read_to_string("/proc/self/statm") {
+            if let Some(pages) = s.split_whitespace().nth(1).and_then(|p| p.parse::<u64>().ok()) {
+                if pages * 4096 > cap_gb << 30 {
+                    eprintln!("MACHINERY-FAILURE: resident set above {cap_gb} GiB, aborting (not a verdict)");
+                    std::process::exit(2);
+                }
+            }
+        }
+    });
 }
 
 fn replay(path: &str) -> i32 {
@@ -100,10 +121,12 @@ fn replay(path: &str) -> i32 {
         "C03" => c03::replay(r),
         "C04" => c04::replay(r),
         "C06" => c06::replay(r),
+        "C07" => c07::replay(r),
         "C10" => c10::replay(r),
         "C11" => c11::replay(r),
         "C12" => c12::replay(r),
         "C13" => c13::replay(r),
+        "C14" => c14::replay(r),
         "C15" => c15::replay(r),
         "C16" => c16::replay(r),
         "C18" => c18::replay(r),
